@@ -138,7 +138,12 @@ def catalogue_shapes(tier="quick"):
                 return None
             return [base, base + 1, base + 3, base + sp // 2, base + sp - 2, base + sp - 1, base + sp]
         add("holes_span_%d" % sp, span_shape)
-    # the macro guesses pointer-sized reprs to be 32 bits wide: values and gaps around 2^31 / 2^32
+    # with-holes enums whose span is congruent to that of a gapless enum of the same size modulo a
+    # narrower integer width (span = n-1 + 2^w): a gapless/holes decision, bound check or table size
+    # computed in a narrower type takes them for gapless (seeded c02j)
+    for (w, rs) in ((8, ["u16", "i16"]), (16, ["u32", "i32"]), (32, ["u64", "i64"])):
+        add("holes_span_alias_2_%d" % w, lambda r, w=w: [0, 1, 2, 3 + (1 << w)], rs)
+        add("holes_span_alias_mid_2_%d" % w, lambda r, w=w: [0, 1, 2 + (1 << w), 3 + (1 << w), 4 + (1 << w)], rs)
     psz = ["usize", "isize"]
     add("around_2_31_2_32",
         lambda r: [(1 << 31) - 1, 1 << 31, (1 << 31) + 1, (1 << 32) - 1, 1 << 32, (1 << 32) + 1] if r in psz else None, psz)
@@ -634,7 +639,7 @@ def plan_corpus(seed, tier, shard=0):
             continue
         # every shape on 2 reprs (thorough: 4), rotating through the list; the span family on 1 (2)
         k = 2 if tier == "quick" else 4
-        if sname.startswith("holes_span_") and sname[11:].isdigit():
+        if sname.startswith("holes_span_") and (sname[11:].isdigit() or sname[11:].startswith("alias")):
             k = 1 if tier == "quick" else 2
         chosen = []
         for i in range(len(ok)):
@@ -693,6 +698,10 @@ debug-assertions = true
 overflow-checks = false
 incremental = false
 codegen-units = 16
+
+[profile.ovf]
+inherits = "dev"
+overflow-checks = true
 
 [profile.release]
 opt-level = 3
